@@ -78,6 +78,7 @@ type vsRun struct {
 
 	nextCapture int
 	brokenFiles int
+	lazyViews   int
 	snapFaults  int
 	mergeFaults int
 	views       [2]*vsView
@@ -833,6 +834,24 @@ func (r *vsRun) stepView() {
 		}
 		v.mergesAtOpen, v.importsAtOpen = r.mergesDone, r.importsDone
 		v.usedAfterMerge, v.usedAfterImport = false, false
+		if r.cfg.focus == "C10" && rapid.IntRange(0, 2).Draw(rt, "lazyview") == 0 {
+			// a view that is opened but asked nothing yet: what it answers later must be what a second view, opened
+			// right behind it (nothing runs in the service in between) and read at once, answered
+			twin := r.e.mgr.GetView()
+			if _, err := twin.ReferenceTime(); err != nil {
+				r.fatalf("opening a view failed: %v", err)
+			}
+			ans, err := veUseView(&twin, v.queries)
+			twin.Release()
+			_ = r.e.inLoop(func() {})
+			if err != nil {
+				r.fatalf("view %d: read of its twin failed: %v", slot, err)
+			}
+			v.baseline = ans
+			r.lazyViews++
+			r.log("open view %d (asked nothing yet)", slot)
+			return
+		}
 		ans, err := veUseView(&v.v, v.queries)
 		if err != nil {
 			r.fatalf("view %d: first read failed: %v", slot, err)
@@ -1713,6 +1732,7 @@ func vsScenario(rt *rapid.T, c *vlib.Case, t *testing.T, cfg vsConfig, open map[
 	c.LabelIf(r.mergeFaults > 0, "merges-made-to-fail")
 	c.LabelIf(r.brokenFiles > 0, "broken-upload-queued")
 	c.LabelIf(r.tr.Fat, "fat-flow")
+	c.LabelIf(r.lazyViews > 0, "view-first-asked-after-later-events")
 	c.LabelIf(r.snapFaults > 0, "import-with-unusable-snapshot-directory")
 	nontrivial := false
 	switch cfg.focus {
